@@ -1923,6 +1923,14 @@ class C16(Prop):
                 c.meta = {'key': key, 'pos': 'coq-key-path', 'escaped': body != key, 'keyq': True}
                 want[cid] = 'ok:[n(1,0)]' if present else 'mne:' + hx(('[' + q + body + q + ']').encode('utf-8'))
                 cases.append(c)
+            dot = gens.esc_dot(kb)
+            if dot is not None:
+                cid = 'q%d_2' % i
+                c = Case(cid, b'$.' + dot, [obj])
+                c.keyq = (0, [ord(ch) for ch in key])
+                c.meta = {'key': key, 'pos': 'coq-dot-path', 'escaped': dot != kb, 'keyq': True}
+                want[cid] = 'ok:[n(1,0)]' if present else 'mne:' + hx(b'.' + dot)
+                cases.append(c)
         # two members addressed from the root on both sides of a comparison: distinct keys must stay distinct
         for i in range(n // 8):
             key = gen_key(r)
